@@ -130,7 +130,8 @@ def run_property(pid, tier, seed, jobs=16, out=sys.stdout):
     results = []
     bounded = None
     with cf.ProcessPoolExecutor(max_workers=jobs) as ex:
-        bf = ex.submit(_job_bounded, (modname, tier, seed)) if hasattr(m, 'bounded') else None
+        # VERIF_NO_BOUNDED=1: proof parts only (used to measure what the obligations alone detect; never registered in MANIFEST)
+        bf = ex.submit(_job_bounded, (modname, tier, seed)) if hasattr(m, 'bounded') and not os.environ.get('VERIF_NO_BOUNDED') else None
         # contracts with slow obligations are split: one job per path (prefixes enumerated first)
         split = {i: ex.submit(_job_paths, (modname, i, tier)) for i, c in enumerate(contracts) if getattr(c, 'parallel_paths', False)}
         futs = []
